@@ -33,6 +33,59 @@ type Finding struct {
 type Findings struct {
 	Known []*Finding
 	Fixed []string
+	// Census: for properties whose signature space does not depend on the seed (the enumerated instruction spaces), the exact
+	// signatures observed on the repaired tree in the thorough tier (KNOWN_SIGNATURES/<prop>.txt, committed, never written at
+	// run time).  A signature is "known" only if a listed pattern matches it AND it is in the census: a pattern can then not
+	// absorb a regression in a neighbouring cell that holds today.
+	Census map[string]map[string]bool
+}
+
+// loadCensus reads KNOWN_SIGNATURES/<prop>.txt files next to the findings file.
+func (fs *Findings) loadCensus(dir string) {
+	ents, err := os.ReadDir(dir)
+	if err != nil {
+		return
+	}
+	fs.Census = map[string]map[string]bool{}
+	for _, e := range ents {
+		if !strings.HasSuffix(e.Name(), ".txt") {
+			continue
+		}
+		b, err := os.ReadFile(filepath.Join(dir, e.Name()))
+		if err != nil {
+			continue
+		}
+		m := map[string]bool{}
+		for _, l := range strings.Split(string(b), "\n") {
+			if l != "" && !strings.HasPrefix(l, "#") {
+				m[l] = true
+			}
+		}
+		fs.Census[strings.TrimSuffix(e.Name(), ".txt")] = m
+	}
+}
+
+// c07FixedTriples: the three-operand lists every run contains (the others are drawn at random and are outside the census)
+var c07FixedTriples = map[string]bool{"r32,imm-small,imm-small": true, "r16,imm-small,r16": true, "r32,r32,imm-small": true, "r16,mem,imm-small": true, "acc16,imm-small,equ": true,
+	"mem,r16,imm-small": true, "r32,imm-mid,r32": true, "acc32,equ,label": true}
+
+// inCensusDomain: whether the census of the property is complete for signatures of this shape.
+func inCensusDomain(prop, sig string) bool {
+	if prop == "C07" {
+		f := strings.Split(sig, "|")
+		if len(f) < 4 {
+			return true
+		}
+		i := strings.IndexByte(f[3], ' ')
+		if i < 0 {
+			return true
+		}
+		shape := f[3][i+1:]
+		if strings.Count(shape, ",") >= 2 && !c07FixedTriples[shape] {
+			return false
+		}
+	}
+	return true
 }
 
 func LoadFindings(path string) (*Findings, error) {
@@ -109,6 +162,7 @@ func LoadFindings(path string) (*Findings, error) {
 			return nil, fmt.Errorf("%s:%d: line must start with known: or fixed:", path, ln)
 		}
 	}
+	fs.loadCensus(filepath.Join(filepath.Dir(path), "KNOWN_SIGNATURES"))
 	return fs, sc.Err()
 }
 
@@ -226,6 +280,9 @@ func (f *Finding) Match(sig string) bool {
 }
 
 func (fs *Findings) MatchKnown(prop, sig string) *Finding {
+	if c, ok := fs.Census[prop]; ok && !c[sig] && inCensusDomain(prop, sig) {
+		return nil
+	}
 	for _, f := range fs.Known {
 		if f.Prop == prop && f.Match(sig) {
 			return f
